@@ -104,13 +104,13 @@ theorem load_save_reachable (n : Nat) (hn : n ≤ maxBuffers) (init : Nat) (hi :
       ∃ a', load lcfg alloc (save a) = .ok a' ∧ abs a' = x' ∧ abs a' = abs a ∧ save a' = save a :=
   load_save_run cfg bases ops (wf_create init hn) hi (by rw [abs_create]; exact hspec) hs2 had hr lcfg alloc hA hnz
 
-/-- the hypotheses are satisfiable: the 14-operation session `exOps` (every kind of operation, growth between
+/-- the hypotheses are satisfiable: the 17-operation session `exOps` (every kind of operation, growth between
     storing a pointer and reading it back) run with initial size 1 and loaded at 1 MiB-spaced addresses -/
 example : ∃ a a' outs, runOut {} exBases₁ (create 2 1) exOps = .ok (a, outs) ∧
-    load loaderCfg exAlloc (save a) = .ok a' ∧ abs a' = abs a ∧ a.relocs.length = 4 := by
+    load loaderCfg exAlloc (save a) = .ok a' ∧ abs a' = abs a ∧ a.relocs.length = 5 := by
   have had : AdmRun {} exBases₁ (create 2 1) exOps := admRun_of_check _ _ _ _ (by decide +kernel)
   have c : (match arun (aCreate 2) exOps with
-      | some (x, _) => decide ((∀ d ∈ x.1, d.length ≤ 2 ^ 31) ∧ RangesOk (loadedBufs exAlloc 0 x.1) ∧ x.2.length = 4)
+      | some (x, _) => decide ((∀ d ∈ x.1, d.length ≤ 2 ^ 31) ∧ RangesOk (loadedBufs exAlloc 0 x.1) ∧ x.2.length = 5)
       | none => false) = true := by decide +kernel
   cases hspec : arun (aCreate 2) exOps with
   | none => rw [hspec] at c; cases c
